@@ -25,6 +25,7 @@ import (
 	"github.com/openebs/jiva/replica/rest"
 	"github.com/openebs/jiva/rpc"
 	"github.com/openebs/jiva/sync/agent"
+	"github.com/openebs/sparse-tools/cli/sfold"
 	"github.com/openebs/sparse-tools/cli/ssync"
 	"github.com/sirupsen/logrus"
 )
@@ -158,6 +159,14 @@ func agentMain() {
 // was re-executed as one of them (and then does not return).
 func Init() {
 	reexec.Register("ssync", ssync.Main)
+	// sfold is what the sync agent runs for a "fold" (coalesce) request; a marker file in the agent's
+	// working directory (the replica directory) makes it fail the way a full disk or a killed child does
+	reexec.Register("sfold", func() {
+		if _, err := os.Stat(".verif-fold-fault"); err == nil {
+			os.Exit(1)
+		}
+		sfold.Main()
+	})
 	reexec.Register("verif-agent", agentMain)
 	if reexec.Init() {
 		os.Exit(0)
